@@ -115,7 +115,8 @@ class Engine(BaseEngine):
             return (b"[" + b",".join(b"[" + b",".join(b'"' + x + b'"' for x in t) + b"]" for t in ts) + b"]")
         for ts in ([[b"r", b"a" * 65536]], [[b"r", b"a" * 65523]], [[b"r", b"a" * 65522]],
                    [[b"a", b"x" * 40000], [b"b", b"y" * 30000]], [[b"a", b"x" * 65000], [b"b", b"y" * 600]],
-                   [[b"k", b"v" * 50] for _ in range(1100)], [[b"a", b"x" * 30000, b"y" * 30000, b"z" * 6000]]):
+                   [[b"k", b"v" * 50] for _ in range(1100)], [[b"a", b"x" * 30000, b"y" * 30000, b"z" * 6000]],
+                   [[b"r", b"a" * 65522], []], [[b"r", b"a" * 65518], [], []], [[b"r", b"a" * 65520], [b""]], [[b"r", b"a" * 65521, b""]]):
             t = jt(ts)
             sfx = "-many" if len(ts) > 100 else ""
             out.append(("tags-overflow" + sfx, "tagsjson %s n:80000 n:170" % C.tb(t)))
